@@ -300,6 +300,12 @@ func (e *FnEnc) instr(in ssa.Instruction) {
 		x := e.val(i.X)
 		switch i.Op {
 		case token.MUL:
+			if g, ok := i.X.(*ssa.Global); ok && e.W.ImmutableGlobal(g) {
+				v := e.setVal(i, e.W.GlobalConst(g))
+				e.assumeValid(v)
+				e.note("A12 package-level variable treated as a constant (never stored to outside its initialiser): " + g.Pkg.Pkg.Path() + "." + g.Name())
+				return
+			}
 			l := e.locOf(x)
 			if l == nil || (x.Loc == nil && x.T == "") {
 				e.abstract("load through unknown pointer")
@@ -309,6 +315,7 @@ func (e *FnEnc) instr(in ssa.Instruction) {
 			if x.Loc == nil {
 				e.assume(not(sx("=", x.T, "0")))
 			}
+			e.protectCheck(l, false, i)
 			t, _ := e.loadIn(e.cur, l)
 			v := e.setVal(i, t)
 			e.assumeValid(v)
@@ -339,6 +346,7 @@ func (e *FnEnc) instr(in ssa.Instruction) {
 			e.abstract("derived address stored as a value")
 			v.T = e.declare("esc", s.SortOf(i.Val.Type()))
 		}
+		e.protectCheck(l, true, i)
 		e.storeLoc(l, v.T)
 	case *ssa.BinOp:
 		x, y := e.val(i.X), e.val(i.Y)
@@ -480,6 +488,7 @@ func (e *FnEnc) instr(in ssa.Instruction) {
 	case *ssa.Next:
 		e.nextInstr(i)
 	case *ssa.Call:
+		e.applyCallAsserts(i.Common(), i)
 		e.call(i, i.Common(), i)
 		e.applyCallUpdates(i, i.Common())
 	case *ssa.MakeClosure:
